@@ -168,11 +168,12 @@ def _eval_op(impl, mid, args):
     tabs = file_tables(F, masks, full)
     out = [f'{n[0]}:{tabs[n[0]]}' for n in F['nodes']]
     out += [f'r{r}:{root_table(tabs, full, r)}' for r in F['rootids']]
-    if 'orderedvarnames' in F or 'suppvarnames' in F:
-        # the model also prints `evalFormat` (theorems `C16_format`, `C16_varinfo*`): the reading rule
-        # of the format on the header lines, which is what `file_tables` implements
-        out += [f'F{n[0]}:{tabs[n[0]]}' for n in F['nodes']]
-        out += [f'Fr{r}:{root_table(tabs, full, r)}' for r in F['rootids']]
+    # the model also prints `evalFormat` (theorems `C16_format`, `C16_varinfo*`): the reading rule
+    # of the format on the header lines, which is what `file_tables` implements (files without
+    # names: the variable is known by its index `ids[j]`; the generated ones are coherent, i.e.
+    # the loader's invented name `permids[permids[j]]` is that index: `C16_nameless_by_index`)
+    out += [f'F{n[0]}:{tabs[n[0]]}' for n in F['nodes']]
+    out += [f'Fr{r}:{root_table(tabs, full, r)}' for r in F['rootids']]
     return ';'.join(out)
 
 
